@@ -36,7 +36,7 @@ CHECKS = {
    note='Hygiene is out of scope by construction (quoted templates, no binders). Seven genuine matcher/expander defects are listed as open known findings with structural signatures; a different defect on transformers of exactly those shapes could be masked.', ref='5 C17'),
  'C18': dict(cat='model_checking', tech='trace validation of symbol-production sessions under forced collection schedules against SchemeCEK (symbols are interned names) with TLC',
    text='In the CEK machine a symbol is its interned name (symbol table in the machine state), eq? on symbols is identity of the interned name, and the two conversions are the identity on names. Sessions produce two symbols by every pair of routes with names from all of Unicode, keep or drop the first, within one form or across forms, under forced collections at every k-th instruction and pseudo-random boundaries; TLC validates eq?, memq and the string round trips observed inside the language.',
-   note='Macro-output route not generated yet. The intern table itself is checked structurally by the C03/C12 snapshot check.', ref='5 C18'),
+   note='The intern table itself is checked structurally by the C03/C12 snapshot check.', ref='5 C18'),
 
  'C08': dict(cat='model_checking', tech='trace validation of recorded arithmetic operation records against NumTower/BigNum (arbitrary-precision arithmetic specified in TLA+) with TLC',
    text='BigNum.tla specifies integers as base-10^4 limb sequences (self-checked by TLC against native integers on 416k pairs) and NumTower.tla exact rationals and IEEE doubles decoded to exact values. The harness draws operands from the boundary palette in every internal representation (injected Number variants and Scheme-level routes), evaluates + - * / abs floor ceiling truncate numerator denominator expt quotient remainder modulo in the real VM, and TLC judges every record: exact results must equal the true value, inexact ones are allowed only when the exact result is unrepresentable and within 2^-50 relative error, representations must agree, panics are rejected.',
